@@ -302,6 +302,9 @@ func (ff FeatureSlice) Insert(f Feature) FeatureSlice {
 		})
 	}
 
+	// Insert into a fresh table: shifting elements inside the backing array
+	// of the receiver would change what the caller sees through it.
+	ff = append(make(FeatureSlice, 0, len(ff)+1), ff...)
 	ff = append(ff, Feature{})
 	copy(ff[i+1:], ff[i:])
 	ff[i] = f
